@@ -4,6 +4,17 @@ package raft
 // vh_Quorum: hasQuorum against a reference for every configuration over the id universe.
 
 // vRefVoters counts voters of c by an independent loop over the id universe.
+// vRefIsVoter is the reference for "id is a voting member of c" (the library's own isVoter is under test).
+func vRefIsVoter(c *Configuration, id string) bool {
+	_, ok := c.Members[id]
+	return ok && c.IsVoter[id]
+}
+
+func vRefIsMember(c *Configuration, id string) bool {
+	_, ok := c.Members[id]
+	return ok
+}
+
 func vRefVoters(c *Configuration, ids []string) int {
 	nv := 0
 	for _, id := range ids {
